@@ -52,6 +52,7 @@ def run(ctx):
     ctx.rule('R20.5', 'wiring: diff endpoint returns the base it diffed with diff_notebooks(base, remote); merge endpoint returns '
              'decide_notebook_merge(base, local, remote) under mergetool strategy; every route gets the base_url prefix', floor=4)
     ctx.rule('R20.6', 'errors map to error statuses: broad handlers re-raise as HTTPError>=400; narrow handlers only from a frozen table', floor=5)
+    ctx.rule('R20.7', 'a malformed store request changes nothing on disk: the request is parsed and converted before the output file is opened; only the write happens while it is open', floor=1)
 
     mods = (SRV,) if ctx.tier == 'quick' else (SRV, 'nbdime.webapp.nb_server_extension')
     handlers = facts.http_handlers(repo, cg, modules=(SRV, 'nbdime.webapp.nb_server_extension'))
@@ -127,6 +128,27 @@ def run(ctx):
             if src is not None and refuse:
                 ok, why = True, 'write happens only when %s (from self.params) is set; otherwise HTTPError is raised' % v
         ctx.inst('R20.2', store, '%s guarded by output-file test' % what, ok, why, call)
+
+    # ---------------------------------------------------------------- R20.7 malformed store request changes nothing on disk
+    for call, what in persistent[store]:
+        st = repo.stmt_of(call)
+        if not isinstance(st, ast.With):
+            continue
+        late = []
+        for s2 in g.stmts():
+            if s2 is st or s2 in list(ast.walk(st)):
+                continue
+            if isinstance(s2, (ast.Assign, ast.Expr)) and tn.why(fn, s2.value if hasattr(s2, 'value') else s2):
+                if not g.dominated_by(st, [s2]) and g.dominated_by(s2, [st]):
+                    late.append(s2)
+        inner = [c for b in st.body for c in calls_in(b)]
+        inner_bad = [c for c in inner if not ((dotted(c.func) or '').endswith('.write') or (dotted(c.func) or '') in ('nbformat.write', 'json.dump'))]
+        pre = [s2 for s2 in g.stmts() if isinstance(s2, ast.Assign) and tn.why(fn, s2.value) and g.dominated_by(st, [s2])]
+        ok = not late and not inner_bad and bool(pre)
+        ctx.inst('R20.7', store, 'request parsed (%d statement(s)) before %s; body of the with: %s' % (len(pre), what, [dotted(c.func) for c in inner]), ok,
+                 'a malformed body / missing key fails before the output file is opened (truncated)' if ok else
+                 ('request data is parsed after the output file has been opened for writing: a malformed request truncates it' if late or not pre else
+                  'work other than the write happens while the output file is open: %s' % [ast.unparse(c)[:40] for c in inner_bad]), st)
 
     # ---------------------------------------------------------------- R20.3
     stops = []
